@@ -12,8 +12,9 @@ import WcModel.Model.WinDrive
   Both are instances of `literal_language` (a run of literal units becomes a run of literal
   items, by induction over the string through `rootLoop` / `parse_extend` / `_references`).
   The model of `escape` / `is_magic` is tied to the code by stream K3 (exhaustive short strings).
-  Not proved here (partial): path mode (duplicate / trailing separators, NODOTDIR) and the
-  Windows drive/UNC carve-out of `escape(unix=False)`; those are searched through the API.
+  Path mode with Unix rules (duplicate / trailing separators, NODOTDIR, REALPATH's `_NO_ROOT`) is proved in
+  `Properties/C09path.lean` (`C09_escape_path_items`, `_language`, `_globmatch`, `C09_not_magic_path`).
+  Not proved (partial): the Windows drive/UNC carve-out of `escape(unix=False)`; searched through the API.
 -/
 namespace WcModel.C09
 
